@@ -1,9 +1,11 @@
 use std::{
     cell::RefCell,
-    collections::{BTreeMap, HashSet},
+    collections::HashSet,
     fmt,
     sync::Arc,
 };
+
+use indexmap::IndexMap;
 
 use codemap::{Span, Spanned};
 
@@ -207,9 +209,9 @@ pub(crate) struct ModuleScope {
 impl ModuleScope {
     pub fn new() -> Self {
         Self {
-            variables: Arc::new(BaseMapView(Arc::new(RefCell::new(BTreeMap::new())))),
-            mixins: Arc::new(BaseMapView(Arc::new(RefCell::new(BTreeMap::new())))),
-            functions: Arc::new(BaseMapView(Arc::new(RefCell::new(BTreeMap::new())))),
+            variables: Arc::new(BaseMapView(Arc::new(RefCell::new(IndexMap::new())))),
+            mixins: Arc::new(BaseMapView(Arc::new(RefCell::new(IndexMap::new())))),
+            functions: Arc::new(BaseMapView(Arc::new(RefCell::new(IndexMap::new())))),
         }
     }
 }
@@ -234,11 +236,11 @@ pub(crate) enum Module {
 }
 
 #[derive(Debug, Clone)]
-pub(crate) struct Modules(pub BTreeMap<Identifier, Arc<RefCell<Module>>>);
+pub(crate) struct Modules(pub IndexMap<Identifier, Arc<RefCell<Module>>>);
 
 impl Modules {
     pub fn new() -> Self {
-        Self(BTreeMap::new())
+        Self(IndexMap::new())
     }
 
     pub fn insert(
